@@ -335,22 +335,36 @@ func lockedCallsScenarioX(name string, threads [][]callSpec, gate, collide bool)
 		var doCall func(me string, c callSpec, gated bool)
 		doCall = func(me string, c callSpec, gated bool) {
 			vsched.Log("C %s", me)
-			v, err := g.Do(c.key, func() (any, error) {
-				vsched.Log("S %s %s %s", me, c.key, me)
-				if gated {
-					vsched.Recv(gateCh)
-				} else {
-					vsched.Op("in-fn")
-				}
-				if c.nest != "" {
-					doCall(me+"n", callSpec{key: c.nest}, false)
-				}
-				vsched.Log("E %s", me)
-				if c.err {
-					return me, errors.New("err-" + me)
-				}
-				return me, nil
-			})
+			var v any
+			var err error
+			func() {
+				// a panicking fn is recovered above Do (as the rest / zrpc recover middlewares do); the caller's
+				// own function still ran exactly once, and the key must be free again for the next call
+				defer func() {
+					if r := recover(); r != nil {
+						v, err = me, errors.New("err-"+me)
+					}
+				}()
+				v, err = g.Do(c.key, func() (any, error) {
+					vsched.Log("S %s %s %s", me, c.key, me)
+					if gated {
+						vsched.Recv(gateCh)
+					} else {
+						vsched.Op("in-fn")
+					}
+					if c.nest != "" {
+						doCall(me+"n", callSpec{key: c.nest}, false)
+					}
+					vsched.Log("E %s", me)
+					if c.pan {
+						panic("panic-" + me)
+					}
+					if c.err {
+						return me, errors.New("err-" + me)
+					}
+					return me, nil
+				})
+			}()
 			id, _ := v.(string)
 			if err != nil && err.Error() != "err-"+id {
 				id += "!mismatched-error"
@@ -584,6 +598,9 @@ func main() {
 		lockedCallsScenario("lc-3x1-kkq", [][]callSpec{{c(k)}, {c(k)}, {c(q)}}, false),
 		lockedCallsScenario("lc-3x1-kkk", [][]callSpec{{c(k)}, {ce(k)}, {c(k)}}, false),
 		lockedCallsScenario("lc-2+1-kk,k", [][]callSpec{{c(k), c(k)}, {c(k)}}, false),
+		// a panicking fn (recovered above Do) must leave the key usable: the later calls on k still run their own fn
+		lockedCallsScenario("lc-panic-2+1-kk,k", [][]callSpec{{cp(k), c(k)}, {c(k)}}, false),
+		lockedCallsScenario("lc-panic-3x1-kkq", [][]callSpec{{cp(k)}, {c(k)}, {c(q)}}, false),
 		lockedCallsScenario("lc-gate-k,q", [][]callSpec{{c(k)}, {c(q)}}, true),
 		lockedCallsScenario("lc-gate-k,k,q", [][]callSpec{{c(k)}, {c(k)}, {c(q)}}, true),
 		// a running and a pending call on each of two keys: finishing one key's call must let that key's
